@@ -212,7 +212,7 @@ func ruleDispatchGuards(r *Run, v *variant, f *fieldRole, fd *ast.FuncDecl) {
 			g := "other"
 			c := types.ExprString(x.Cond)
 			switch {
-			case strings.Contains(c, "len(hazards) == 0"):
+			case condHasNoHazardTest(info, x.Cond):
 				g = "no-hazard"
 			case x.Init != nil && strings.Contains(types.ExprString(x.Init.(*ast.AssignStmt).Rhs[0]), "shouldUseForwarding"):
 				g = "forwarding"
@@ -242,6 +242,36 @@ func ruleDispatchGuards(r *Run, v *variant, f *fieldRole, fd *ast.FuncDecl) {
 		}
 	}
 	walk(fd.Body, nil)
+}
+
+// condHasNoHazardTest: the condition contains `len(h) == 0` for a h of type []risc.Hazard.
+func condHasNoHazardTest(info *types.Info, cond ast.Expr) bool {
+	found := false
+	ast.Inspect(cond, func(n ast.Node) bool {
+		b, ok := n.(*ast.BinaryExpr)
+		if !ok || b.Op != token.EQL {
+			return true
+		}
+		for _, pair := range [][2]ast.Expr{{b.X, b.Y}, {b.Y, b.X}} {
+			call, ok := ast.Unparen(pair[0]).(*ast.CallExpr)
+			if !ok || len(call.Args) != 1 {
+				continue
+			}
+			if id, ok := call.Fun.(*ast.Ident); !ok || id.Name != "len" || info.Uses[id] != types.Universe.Lookup("len") {
+				continue
+			}
+			if c, ok := constInt64(info.Types[pair[1]]); !ok || c != 0 {
+				continue
+			}
+			if sl, ok := info.TypeOf(call.Args[0]).Underlying().(*types.Slice); ok {
+				if n := namedOf(sl.Elem()); n != nil && n.Obj().Name() == "Hazard" && n.Obj().Pkg().Path() == modPath+"/risc" {
+					found = true
+				}
+			}
+		}
+		return true
+	})
+	return found
 }
 
 // ruleForwardWiring (consumer/producer wiring at the control unit).
